@@ -182,8 +182,8 @@ def job_replay(pid, labels, cfg=None, seed=0):
 def jobs(pid, tier, seed):
     js = [("prop_pool", "job_corpus", {"pid": pid})]
     if tier == "quick":
-        n_jobs, per_job, max_len = 16, 30, 80
-        n_sweep = 0
+        n_jobs, per_job, max_len = 16, 50, 80
+        n_sweep = 8
     else:
         n_jobs, per_job, max_len = 64, 320, 120
         n_sweep = 32
@@ -193,7 +193,8 @@ def jobs(pid, tier, seed):
                    {"pid": pid, "seed": base + k, "count": per_job, "max_len": max_len}))
     for k in range(n_sweep):
         js.append(("prop_pool", "job_sweep",
-                   {"pid": pid, "seed": base + 7000 + k, "count": 3, "max_len": 50}))
+                   {"pid": pid, "seed": base + 7000 + k, "count": 1 if tier == "quick" else 3,
+                    "max_len": 35 if tier == "quick" else 50}))
     return js
 
 
